@@ -70,6 +70,10 @@ pub fn replay_case(case: &Case, path: &str, timeout: Duration) -> Replay {
     let ref_line = out.lines().find(|l| l.starts_with("REF ")).unwrap_or("").to_string();
     match status {
         None => {
+            let limited = matches!(case.mode, crate::subject::Mode::Limited(b) if b <= 4096);
+            if limited && !ref_line.is_empty() {
+                return Replay::Reproduced(format!("execute_limited did not return within {} s with budget {:?} ({})", timeout.as_secs(), case.mode, ref_line));
+            }
             if ref_line.starts_with("REF halted") || ref_line.starts_with("REF faulted") {
                 let limited = matches!(case.mode, crate::subject::Mode::Limited(_));
                 Replay::Reproduced(format!("the call did not return within {} s although the canonical run stops ({}){}", timeout.as_secs(), ref_line, if limited { " [limited mode]" } else { "" }))
